@@ -1489,8 +1489,13 @@ class Emit:
         em = self.ext_methods.get(f"{mc[2]}/{len(mc[3])}", self.ext_methods.get(mc[2]))
         if not em or not em.get("returns_pair"): return None
         a = mc[3][em["assign_arg"]]
-        if a[0] != "path" or len(a[1]) != 1: raise Unsupported("out-parameter that is not a local variable")
         self.cur_uses_ext = True
+        if a[0] == "index" and a[1][0] == "path" and len(a[1][1]) == 1 and a[2][0] == "range" and a[2][1] == ("num", "0", None) \
+           and a[2][2] is not None and not a[2][3] and em.get("upto"):
+            # `h.read(&mut buf[..n])`: the operation may fill at most the first n bytes of `buf`
+            raw = " ".join([f"ext.{em['upto']}", self.atom(mc[1]), lname(a[1][1][0]), self.atom(a[2][2])])
+            return raw, lname(a[1][1][0]), target, decl
+        if a[0] != "path" or len(a[1]) != 1: raise Unsupported("out-parameter that is not a local variable")
         raw = " ".join([f"ext.{em['name']}", self.atom(mc[1])] + [self.atom(x) for x in mc[3]])
         return raw, lname(a[1][0]), target, decl
     def branching_or_block(self, e, ind, mode):
